@@ -333,6 +333,10 @@ pub fn o_time(a: &Analysis) -> Vec<Violation> {
         // of its own decisions per microsecond of its duration (clock read, state load, yield) plus a constant
         let k = &a.d.case.knobs;
         let calm = k.p_stall == 0 && k.p_cs_freeze == 0 && k.freeze.is_none() && k.time == TimeS::Tick;
+        if timed_out && us == u32::MAX as u64 {
+            out.push(v(format!("time/early@{}", r.op.kind()), format!("{:?} reported Timeout for an unlimited duration", r.op)));
+            continue;
+        }
         if timed_out && calm && r.own as u64 > 4 * us + 300 {
             out.push(v(
                 format!("time/late@{}", r.op.kind()),
